@@ -561,6 +561,133 @@ def check_out_aliases(model, rep):
         raise AnalysisError(f'only {n} _compile_with_out implementations found')
 
 
+def _leaves(stmts):
+    return bool(stmts) and isinstance(stmts[-1], (ast.Break, ast.Continue, ast.Return, ast.Raise))
+
+
+def _exposed_reads(stmts, defined):
+    """(names read before they are bound on some path through the statement list, names bound on every path) - a forward scan that
+    merges branches by intersection; loop bodies may run zero times; names of comprehensions and lambdas are their own."""
+    exposed = set()
+    defined = set(defined)
+
+    def reads(node, local=frozenset()):
+        out = set()
+        if isinstance(node, (ast.ListComp, ast.SetComp, ast.GeneratorExp, ast.DictComp)):
+            loc = set(local)
+            for g in node.generators:
+                out |= reads(g.iter, frozenset(loc))
+                loc |= {n.id for n in ast.walk(g.target) if isinstance(n, ast.Name)}
+                for c in g.ifs:
+                    out |= reads(c, frozenset(loc))
+            for part in ([node.key, node.value] if isinstance(node, ast.DictComp) else [node.elt]):
+                out |= reads(part, frozenset(loc))
+            return out
+        if isinstance(node, ast.Lambda):
+            a = node.args
+            loc = set(local) | {x.arg for x in a.posonlyargs + a.args + a.kwonlyargs + ([a.vararg] if a.vararg else []) + ([a.kwarg] if a.kwarg else [])}
+            return reads(node.body, frozenset(loc))
+        if isinstance(node, ast.Name):
+            return {node.id} if isinstance(node.ctx, ast.Load) and node.id not in local else set()
+        for ch in ast.iter_child_nodes(node):
+            out |= reads(ch, local)
+        return out
+
+    def stores(node):
+        return {n.id for n in ast.walk(node) if isinstance(n, ast.Name) and isinstance(n.ctx, ast.Store)}
+
+    for s in stmts:
+        if isinstance(s, (ast.FunctionDef, ast.AsyncFunctionDef, ast.ClassDef)):
+            defined.add(s.name)
+        elif isinstance(s, ast.If):
+            exposed |= reads(s.test) - defined
+            e1, d1 = _exposed_reads(s.body, defined)
+            e2, d2 = _exposed_reads(s.orelse, defined)
+            exposed |= e1 | e2
+            defined = d2 if _leaves(s.body) else d1 if _leaves(s.orelse) else d1 & d2
+        elif isinstance(s, (ast.For, ast.While)):
+            if isinstance(s, ast.For):
+                exposed |= reads(s.iter) - defined
+                inner = defined | stores(s.target)
+            else:
+                exposed |= reads(s.test) - defined
+                inner = set(defined)
+            e1, d1 = _exposed_reads(s.body, inner)
+            exposed |= e1
+            if isinstance(s, ast.While):
+                exposed |= reads(s.test) - d1 - defined
+            e2, d2 = _exposed_reads(s.orelse, defined if isinstance(s, ast.While) else defined)
+            exposed |= e2
+            # after the loop only what was bound before it is certain (the body may not have run; `break` skips the else clause)
+        elif isinstance(s, ast.With):
+            for it in s.items:
+                exposed |= reads(it.context_expr) - defined
+                if it.optional_vars is not None:
+                    defined |= stores(it.optional_vars)
+            e1, d1 = _exposed_reads(s.body, defined)
+            exposed |= e1
+            defined = d1
+        elif isinstance(s, ast.Try):
+            e1, d1 = _exposed_reads(s.body, defined)
+            exposed |= e1
+            after = None
+            for h in s.handlers:
+                eh, dh = _exposed_reads(h.body, defined | ({h.name} if h.name else set()))
+                exposed |= eh
+                if not _leaves(h.body):     # a handler that falls through continues after the try with only what it bound itself
+                    after = dh if after is None else after & dh
+            e2, d2 = _exposed_reads(s.orelse, d1)
+            after = d2 if after is None else after & d2
+            e3, d3 = _exposed_reads(s.finalbody, defined)
+            exposed |= e2 | e3
+            defined = after | d3
+        else:
+            if isinstance(s, ast.AugAssign) and isinstance(s.target, ast.Name):
+                exposed |= ({s.target.id} | reads(s.value)) - defined
+                defined.add(s.target.id)
+            else:
+                exposed |= reads(s) - defined
+                defined |= stores(s)
+    return exposed, defined
+
+
+def check_parallel_iterations(model, rep, rule='R16.8'):
+    """Which iterations of a `parallel.ctxrange` loop a process executes depends on the scheduling of the workers, so an iteration may not read a
+    local that an earlier iteration of the same process left behind: every local that the loop body binds is bound, on every path, before it is read in
+    the same iteration.  (Results go through shared arrays indexed by the iteration, which are subscript stores, not bindings.)"""
+    def loops_of(tree):
+        out = []
+        for w in ast.walk(tree):
+            if isinstance(w, ast.With):
+                for it in w.items:
+                    if isinstance(it.context_expr, ast.Call) and src(it.context_expr.func) in ('parallel.ctxrange', 'ctxrange') and isinstance(it.optional_vars, ast.Name):
+                        out += [l for l in w.body if isinstance(l, ast.For) and src(l.iter) == it.optional_vars.id]
+        return out
+
+    def carried(loop):
+        bound = {n.id for x in loop.body for n in ast.walk(x) if isinstance(n, ast.Name) and isinstance(n.ctx, ast.Store)}
+        exposed, _ = _exposed_reads(loop.body, {n.id for n in ast.walk(loop.target) if isinstance(n, ast.Name)})
+        return sorted(exposed & bound)
+    # built-in examples: an independent body and one that remembers the previous iteration
+    good = ast.parse("with parallel.ctxrange('x', n) as r:\n    for i in r:\n        d = f(i)\n        for j in g(d):\n            k = j\n        out[i] = d\n")
+    bad = ast.parse("hint = ()\nwith parallel.ctxrange('x', n) as r:\n    for i in r:\n        for j in chain(hint, g(i)):\n            if ok(j):\n                out[i] = j\n                hint = j,\n                break\n")
+    if [carried(l) for l in loops_of(good)] != [[]] or [carried(l) for l in loops_of(bad)] != [['hint']]:
+        raise AnalysisError('R16.8: the built-in examples are not decided as expected: the rule is broken')
+    n = 0
+    for f in model.functions.values():
+        if isinstance(f.node, ast.Lambda) or f.module.short not in ('topology', 'sample', 'evaluable', 'function', 'solver', 'parallel', 'mesh'):
+            continue
+        for loop in loops_of(f.node):
+            if not any(loop in getattr(x, 'body', []) for x in ast.walk(f.node) if isinstance(x, ast.With)):
+                continue
+            n += 1
+            c = carried(loop)
+            rep.ob(rule, f.key, f.where(loop), not c, 'no iteration of the parallel range reads a local left behind by an earlier one' if not c else
+                   f'the iterations of the parallel range are not independent: `{c[0]}` is read before it is bound in the same iteration and bound later in the loop body, so an iteration sees what the '
+                   'previous iteration OF THE SAME WORKER left behind - the result depends on how the iterations are distributed over the processes', statement='independent iterations')
+    rep.info(f'{rule}: {n} parallel.ctxrange loops in the library (plus 2 built-in examples)')
+
+
 def run(model, rep, tier):
     rep.explanation = (
         'R16.1 lock discipline of parallel.range: every load/store of the shared counter lies inside `with self._lock`, claim/bound-test/increment form one critical section, the counter is created '
@@ -583,6 +710,8 @@ def run(model, rep, tier):
     check_shared_alloc(model, rep)
     check_parallel_regions(model, rep)
     check_out_aliases(model, rep)
+    rep.rule('R16.8', 'iterations of a parallel range are independent (no local carried from one iteration to the next)')
+    check_parallel_iterations(model, rep)
     rep.rule('R16.7', 'every name loaded in parallel.py resolves (symtable)')
     from rules import names as _names
     _names.check(model, rep, 'R16.7', ('parallel',), 10)
